@@ -4,6 +4,7 @@ import (
 	"bytes"
 	"fmt"
 	"regexp"
+	"strings"
 	"sync"
 	"text/template"
 
@@ -37,6 +38,25 @@ var helperFuncs = template.FuncMap{
 	"sanitize": func(name string) string {
 		return invalid.ReplaceAllString(name, "_")
 	},
+	// vclstring escapes a raw value so that it can be embedded between double quotes as a VCL string literal.
+	// The parser decodes %XX escapes in double-quoted strings, so "%", the quote itself
+	// and control characters (e.g. line feed) are written as %XX.
+	"vclstring": func(v string) string {
+		var buf strings.Builder
+		for _, r := range v {
+			switch {
+			case r == '%' || r == '"' || r < 0x20 || r == 0x7F:
+				fmt.Fprintf(&buf, "%%%02X", r)
+			default:
+				buf.WriteRune(r)
+			}
+		}
+		return buf.String()
+	},
+	// oneline folds line breaks so that a value can be written in a line comment
+	"oneline": func(v string) string {
+		return strings.NewReplacer("\r\n", " ", "\n", " ", "\r", " ").Replace(v)
+	},
 	"objectify": func(p Phase) string {
 		switch p {
 		case RequestPhase:
@@ -54,11 +74,12 @@ var helperFuncs = template.FuncMap{
 
 var dictionaryTemplate = template.Must(
 	template.New("dictionary").
+		Funcs(helperFuncs).
 		Parse(
 			`
 table {{ .Name }} STRING {
   {{- range .Items }}
-  "{{ .Key }}": "{{ .Value }}",
+  "{{ .Key | vclstring }}": "{{ .Value | vclstring }}",
   {{- end }}
 }
 `,
@@ -66,11 +87,12 @@ table {{ .Name }} STRING {
 
 var aclTemplate = template.Must(
 	template.New("acl").
+		Funcs(helperFuncs).
 		Parse(
 			`
 acl {{ .Name }} {
 	{{- range .Entries }}
-	{{ if .Negated }}!{{ end }}"{{ .Ip }}"{{ if .Subnet }}/{{ .Subnet }}{{ end }};{{ if .Comment }}  # {{ .Comment }}{{ end }}
+	{{ if .Negated }}!{{ end }}"{{ .Ip }}"{{ if .Subnet }}/{{ .Subnet }}{{ end }};{{ if .Comment }}  # {{ .Comment | oneline }}{{ end }}
 	{{- end }}
 }
 `,
@@ -82,7 +104,7 @@ var backendTemplate = template.Must(
 		Parse(
 			`
 backend F_{{ .Name | sanitize }} {
-	{{ if .Address }}.host = "{{.Address}}";{{ end }}
+	{{ if .Address }}.host = "{{ .Address | vclstring }}";{{ end }}
 }
 `,
 		))
